@@ -74,51 +74,57 @@ Record strm := {
   s_prog : list sop;
   s_pushed : list N;     (* ghost: every byte accepted by push *)
   s_forced : bool;       (* ghost: StreamBuffer.close() was called (data may have been dropped) *)
-  s_created : bool       (* ghost: a request with this stream id has arrived *)
+  s_created : bool;      (* ghost: a request with this stream id has arrived *)
+  s_abort : bool         (* stream_id in self.aborted_streams: RST_STREAM instead of END_STREAM once flushed *)
 }.
 
 Definition strm_none : strm :=
   {| s_buf := sbuf_new; s_inbufs := false; s_live := false; s_tree := false; s_blocked := true;
-     s_win := 0; s_h2open := false; s_pc := PDone; s_prog := []; s_pushed := []; s_forced := false; s_created := false |}.
+     s_win := 0; s_h2open := false; s_pc := PDone; s_prog := []; s_pushed := []; s_forced := false; s_created := false; s_abort := false |}.
 
 Definition set_buf (x : strm) (b : sbuf) : strm :=
   {| s_buf := b; s_inbufs := s_inbufs x; s_live := s_live x; s_tree := s_tree x; s_blocked := s_blocked x;
      s_win := s_win x; s_h2open := s_h2open x; s_pc := s_pc x; s_prog := s_prog x; s_pushed := s_pushed x;
-     s_forced := s_forced x; s_created := s_created x |}.
+     s_forced := s_forced x; s_created := s_created x; s_abort := s_abort x |}.
 Definition set_blocked (x : strm) (v : bool) : strm :=
   {| s_buf := s_buf x; s_inbufs := s_inbufs x; s_live := s_live x; s_tree := s_tree x; s_blocked := v;
      s_win := s_win x; s_h2open := s_h2open x; s_pc := s_pc x; s_prog := s_prog x; s_pushed := s_pushed x;
-     s_forced := s_forced x; s_created := s_created x |}.
+     s_forced := s_forced x; s_created := s_created x; s_abort := s_abort x |}.
 Definition set_win (x : strm) (v : Z) : strm :=
   {| s_buf := s_buf x; s_inbufs := s_inbufs x; s_live := s_live x; s_tree := s_tree x; s_blocked := s_blocked x;
      s_win := v; s_h2open := s_h2open x; s_pc := s_pc x; s_prog := s_prog x; s_pushed := s_pushed x;
-     s_forced := s_forced x; s_created := s_created x |}.
+     s_forced := s_forced x; s_created := s_created x; s_abort := s_abort x |}.
 Definition set_h2open (x : strm) (v : bool) : strm :=
   {| s_buf := s_buf x; s_inbufs := s_inbufs x; s_live := s_live x; s_tree := s_tree x; s_blocked := s_blocked x;
      s_win := s_win x; s_h2open := v; s_pc := s_pc x; s_prog := s_prog x; s_pushed := s_pushed x;
-     s_forced := s_forced x; s_created := s_created x |}.
+     s_forced := s_forced x; s_created := s_created x; s_abort := s_abort x |}.
 Definition set_live (x : strm) (v : bool) : strm :=
   {| s_buf := s_buf x; s_inbufs := s_inbufs x; s_live := v; s_tree := s_tree x; s_blocked := s_blocked x;
      s_win := s_win x; s_h2open := s_h2open x; s_pc := s_pc x; s_prog := s_prog x; s_pushed := s_pushed x;
-     s_forced := s_forced x; s_created := s_created x |}.
+     s_forced := s_forced x; s_created := s_created x; s_abort := s_abort x |}.
 Definition set_pc (x : strm) (pc : spc) (prog : list sop) : strm :=
   {| s_buf := s_buf x; s_inbufs := s_inbufs x; s_live := s_live x; s_tree := s_tree x; s_blocked := s_blocked x;
      s_win := s_win x; s_h2open := s_h2open x; s_pc := pc; s_prog := prog; s_pushed := s_pushed x;
-     s_forced := s_forced x; s_created := s_created x |}.
+     s_forced := s_forced x; s_created := s_created x; s_abort := s_abort x |}.
+(* StreamClosed for a stream whose body was not ended: set_complete, remember to reset, unblock *)
+Definition mark_abort (x : strm) : strm :=
+  {| s_buf := sb_set_complete (s_buf x); s_inbufs := s_inbufs x; s_live := s_live x; s_tree := s_tree x; s_blocked := false;
+     s_win := s_win x; s_h2open := s_h2open x; s_pc := s_pc x; s_prog := s_prog x; s_pushed := s_pushed x;
+     s_forced := s_forced x; s_created := s_created x; s_abort := true |}.
 Definition add_pushed (x : strm) (d : list N) : strm :=
   {| s_buf := s_buf x; s_inbufs := s_inbufs x; s_live := s_live x; s_tree := s_tree x; s_blocked := s_blocked x;
      s_win := s_win x; s_h2open := s_h2open x; s_pc := s_pc x; s_prog := s_prog x;
-     s_pushed := (s_pushed x ++ d)%list; s_forced := s_forced x; s_created := s_created x |}.
+     s_pushed := (s_pushed x ++ d)%list; s_forced := s_forced x; s_created := s_created x; s_abort := s_abort x |}.
 (* StreamBuffer.close() *)
 Definition force_close (x : strm) : strm :=
   {| s_buf := sb_close (s_buf x); s_inbufs := s_inbufs x; s_live := s_live x; s_tree := s_tree x;
      s_blocked := s_blocked x; s_win := s_win x; s_h2open := s_h2open x; s_pc := s_pc x; s_prog := s_prog x;
-     s_pushed := s_pushed x; s_forced := true; s_created := s_created x |}.
+     s_pushed := s_pushed x; s_forced := true; s_created := s_created x; s_abort := s_abort x |}.
 (* del self.stream_buffers[s]; self.priority.remove_stream(s) *)
 Definition forget (x : strm) : strm :=
   {| s_buf := s_buf x; s_inbufs := false; s_live := s_live x; s_tree := false; s_blocked := s_blocked x;
      s_win := s_win x; s_h2open := s_h2open x; s_pc := s_pc x; s_prog := s_prog x; s_pushed := s_pushed x;
-     s_forced := s_forced x; s_created := s_created x |}.
+     s_forced := s_forced x; s_created := s_created x; s_abort := s_abort x |}.
 
 (* ---- the connection *)
 Inductive frame := FHeaders (s : Z) | FData (s : Z) (d : list N) | FEnd (s : Z) | FRst (s : Z).
@@ -188,9 +194,8 @@ Definition do_op (t : st) (s : Z) (o : sop) (rest : list sop) : st :=
       let t1 := close_stream t s in
       let x1 := strms t1 s in
       if s_inbufs x1 && negb (b_complete (s_buf x1)) then
-        let x2 := force_close x1 in
-        if s_h2open x2 then emit (with_strm t1 s (set_pc (set_h2open x2 false) PReady rest)) (FRst s)
-        else with_strm t1 s (set_pc x2 PReady rest)
+        if s_tree x1 then with_has_data (with_strm t1 s (set_pc (mark_abort x1) PReady rest)) true
+        else with_strm t1 s (set_pc (set_buf x1 (sb_set_complete (s_buf x1))) PReady rest)    (* MissingStreamError: swallowed *)
       else with_strm t1 s (set_pc x1 PReady rest) in
   match o with
   | OStart =>
@@ -251,7 +256,7 @@ Definition send_data (t : st) (s : Z) : st :=
       | [] => (t, set_blocked x1 true)
       | _ => (emit (with_cwin t (cwin t - zlen data)) (FData s data), set_win x1 (s_win x1 - zlen data))
       end in
-    if sb_complete b then emit (with_strm t1 s (forget (set_h2open x2 false))) (FEnd s)
+    if sb_complete b then emit (with_strm t1 s (forget (set_h2open x2 false))) (if s_abort x2 then FRst s else FEnd s)
     else with_strm t1 s x2.
 
 Definition send_wake (t : st) : st :=
@@ -307,7 +312,7 @@ Definition client_step (t : st) (c : cev) : st :=
       let x := {| s_buf := sbuf_new; s_inbufs := true; s_live := true; s_tree := true;
                   s_blocked := if s_tree old then s_blocked old else true;   (* DuplicateStreamError: left as it is *)
                   s_win := iw t; s_h2open := true; s_pc := PReady; s_prog := prog; s_pushed := [];
-                  s_forced := false; s_created := true |} in
+                  s_forced := false; s_created := true; s_abort := false |} in
       add_id (with_strm t s x) s
   | CWin s n =>
       let x := strms t s in
@@ -333,7 +338,7 @@ Definition client_step (t : st) (c : cev) : st :=
         else add_id (with_strm t k
                {| s_buf := s_buf x; s_inbufs := s_inbufs x; s_live := s_live x; s_tree := true; s_blocked := true;
                   s_win := s_win x; s_h2open := s_h2open x; s_pc := s_pc x; s_prog := s_prog x;
-                  s_pushed := s_pushed x; s_forced := s_forced x; s_created := s_created x |}) k in
+                  s_pushed := s_pushed x; s_forced := s_forced x; s_created := s_created x; s_abort := s_abort x |}) k in
       let t1 := if dep =? 0 then t else ins t dep in
       with_has_data (ins t1 s) true
   | CData s => t        (* handed to the stream if it is still there (KeyError tolerated), acknowledged *)
